@@ -1454,3 +1454,59 @@ Lemma g_deviations :
   format_run [37; 46; 51; 103]%N (ASingle (VNum (f_of_bits 0x408f3f3333333333))) = Ok [49; 48; 48; 48]%N /\
   format_run [37; 103]%N (ASingle (VNum (f_of_bits 0x3f202e7ef70994dd))) = Ok [48; 46; 48; 48; 48; 49; 50]%N.
 Proof. vm_compute. repeat split. Qed.
+
+(* ============================================================ Display: shortest digits *)
+Local Open Scope Z_scope.
+
+(* the candidates tried at digit count n *)
+Definition cand_lo (m e E n : Z) : Z :=
+  (m * 2 ^ (Z.max e 0) * 10 ^ (Z.max (- (E - n + 1)) 0)) / (2 ^ (Z.max (- e) 0) * 10 ^ (Z.max (E - n + 1) 0)).
+
+(* the rule implemented: first digit count with a candidate inside the rounding interval
+   (i.e. reading back as the same double); when both neighbours are inside, the closer
+   one, an exact tie going UP (Rust's flt2dec) *)
+Lemma shortest_tie_rule f m e E b n :
+  let k := E - n + 1 in
+  let lo := cand_lo m e E n in
+  in_interval m e b lo k = true -> in_interval m e b (lo + 1) k = true ->
+  shortest_search (S f) m e E b n =
+  if dist m e lo k <? dist m e (lo + 1) k then (lo, k) else (lo + 1, k).
+Proof.
+  cbv zeta. intros Hlo Hhi. cbn [shortest_search]. fold (cand_lo m e E n).
+  rewrite Hlo, Hhi. cbn [andb]. unfold Z.ltb.
+  destruct (dist m e (cand_lo m e E n) (E - n + 1) ?= dist m e (cand_lo m e E n + 1) (E - n + 1)); reflexivity.
+Qed.
+
+(* soundness: unless the 17-digit budget runs out, the digits returned lie inside the
+   rounding interval of the double, and no shorter digit string tried before did *)
+Lemma shortest_search_sound : forall fuel m e E b n,
+  let '(d, k) := shortest_search fuel m e E b n in
+  (in_interval m e b d k = true /\
+   exists n', n <= n' /\ k = E - n' + 1 /\
+     forall j, n <= j < n' ->
+       in_interval m e b (cand_lo m e E j) (E - j + 1) = false /\
+       in_interval m e b (cand_lo m e E j + 1) (E - j + 1) = false)
+  \/ k = E - (n + Z.of_nat fuel) + 1.
+Proof.
+  induction fuel as [|f IH]; intros m e E b n.
+  - cbn [shortest_search]. right. cbn. lia.
+  - cbn [shortest_search]. fold (cand_lo m e E n).
+    destruct (in_interval m e b (cand_lo m e E n) (E - n + 1)) eqn:Hlo;
+    destruct (in_interval m e b (cand_lo m e E n + 1) (E - n + 1)) eqn:Hhi; cbn [andb].
+    + destruct (dist m e (cand_lo m e E n) (E - n + 1) ?= dist m e (cand_lo m e E n + 1) (E - n + 1));
+        left; (split; [assumption|exists n; repeat split; try lia]).
+    + left. split; [assumption|exists n; repeat split; try lia].
+    + left. split; [assumption|exists n; repeat split; try lia].
+    + specialize (IH m e E b (n + 1)). destruct (shortest_search f m e E b (n + 1)) as [d k].
+      destruct IH as [(Hin & n' & Hn' & Hk & Hmin)|Hk].
+      * left. split; [assumption|]. exists n'. repeat split; try lia.
+        -- destruct (Z.eq_dec j n) as [->|]; [assumption|apply Hmin; lia].
+        -- destruct (Z.eq_dec j n) as [->|]; [assumption|apply Hmin; lia].
+      * right. lia.
+Qed.
+
+(* the tie that raised a false alarm: 10^15 + 1/4 has two 17-digit neighbours at the same
+   distance; Rust prints ...000.3 *)
+Lemma display_tie_up :
+  display (f_of_bits 0x430c6bf526340002) = [49; 48; 48; 48; 48; 48; 48; 48; 48; 48; 48; 48; 48; 48; 48; 48; 46; 51]%N.
+Proof. vm_compute. reflexivity. Qed.
